@@ -238,3 +238,112 @@ Example C02_example_finished_skipped_due_invoked :
   pg_after [("a", w_done "update"); ("b", w_retry "update")] (r_patch r) "b" = None.
 Proof. exact ex_finished_skipped_due_invoked. Qed.
 Print Assumptions C02_example_finished_skipped_due_invoked.
+
+(* ---------------------------------------------------------------------------------------------------------------
+   Sub-handlers nested to ANY depth (pg_deep_oracle: [fuel] = the depth unfolded; every statement is for all fuel).
+   execution.invoke_handler hands down the subrefs containers of all enclosing levels: every ancestor's outcome
+   lists the ids of its own sub-state and everything its invoked sub-handlers list. *)
+Theorem C02_subrefs_accumulate : forall f body reason lc now fam leaf k n res so ss,
+  fam k = Some (res, so, ss) ->
+  let sub := pg_deep_oracle f body reason lc now fam leaf in
+  let sr := pg_sub_execute body reason so ss lc now sub in
+  let o := fst (pg_deep_oracle (S f) body reason lc now fam leaf k n) in
+  (forall s, In s (map fst (st_items (sr_final sr))) -> In s (o_subrefs o)) /\
+  (forall c m s, In (c, m) (sr_invoked sr) -> In s (o_subrefs (fst (sub c m))) -> In s (o_subrefs o)).
+Proof. exact deep_subrefs_accumulate. Qed.
+Print Assumptions C02_subrefs_accumulate.
+
+(* hence the outcome of an invocation lists ALL its descendants (pg_desc: ids of its sub-state, and descendants of
+   the sub-handlers it invoked), whatever the depth *)
+Theorem C02_outcome_lists_all_descendants : forall body reason lc now fam leaf fuel k n s,
+  pg_desc body reason lc now fam leaf fuel k n s ->
+  In s (o_subrefs (fst (pg_deep_oracle fuel body reason lc now fam leaf k n))).
+Proof. exact deep_lists_all_descendants. Qed.
+Print Assumptions C02_outcome_lists_all_descendants.
+
+(* C02_children_purged_with_parent at arbitrary depth: when the cycle closes, the record of every descendant of
+   every handler invoked in that call is removed *)
+Theorem C02_descendants_purged_with_ancestor : forall body owned reason selected lc now nd fuel fam leaf,
+  pg_handler_reason reason = true -> selected <> [] ->
+  let orc := pg_deep_oracle fuel body reason lc now fam leaf in
+  let r := pg_pipeline body owned reason selected lc now nd orc in
+  r_done r = Some true ->
+  forall k n s, In (k, n) (r_invoked r) -> pg_desc body reason lc now fam leaf fuel k n s ->
+                pg_after body (r_patch r) s = None.
+Proof. exact descendants_purged_with_ancestor. Qed.
+Print Assumptions C02_descendants_purged_with_ancestor.
+
+(* The whole object: if every record on it is top-level or referenced by a top-level record (what kopf maintains,
+   next theorem) and the handlers report what they write, a closing call leaves NO progress record at all —
+   also of sub-handlers finished in earlier calls of the cycle, at any depth. *)
+Theorem C02_close_leaves_nothing_partial : forall body owned reason selected lc now nd orc,
+  pg_handler_reason reason = true -> selected <> [] ->
+  pg_reports_stores orc ->
+  pg_refs_closed (fun s => pg_find s body) owned ->
+  let r := pg_pipeline body owned reason selected lc now nd orc in
+  r_done r = Some true ->
+  forall s, pg_after body (r_patch r) s = None.
+Proof. exact close_leaves_nothing. Qed.
+Print Assumptions C02_close_leaves_nothing_partial.
+
+(* without the invariant it is false: an unreferenced sub-handler record survives the closing *)
+Theorem C02_close_leaves_nothing_refuted :
+  exists body owned reason selected lc now orc,
+    let r := pg_pipeline body owned reason selected lc now true orc in
+    pg_handler_reason reason = true /\ incl selected owned /\ pg_pure orc /\ r_done r = Some true /\
+    exists s, pg_after body (r_patch r) s <> None.
+Proof. exact close_leaves_nothing_refuted. Qed.
+Print Assumptions C02_close_leaves_nothing_refuted.
+
+(* the invariant holds on an object without records and is preserved by EVERY call of the pipeline (any cause, any
+   selection within the owned handlers, closing or not, with or without supersession) *)
+Theorem C02_refs_closed_initially : forall tops, pg_refs_closed (fun s => pg_find s (@nil (pg_hid * pg_srec))) tops.
+Proof. exact refs_closed_empty. Qed.
+Print Assumptions C02_refs_closed_initially.
+
+Theorem C02_refs_closed_preserved : forall body owned reason selected lc now nd orc,
+  incl selected owned -> pg_reports_stores orc -> pg_stores_apart orc owned ->
+  pg_refs_closed (fun s => pg_find s body) owned ->
+  pg_refs_closed (pg_after body (r_patch (pg_pipeline body owned reason selected lc now nd orc))) owned.
+Proof. exact refs_closed_preserved. Qed.
+Print Assumptions C02_refs_closed_preserved.
+
+(* the nested-handler oracle meets both side conditions, for every depth *)
+Theorem C02_deep_reports_stores : forall body reason lc now fam leaf,
+  pg_pure leaf -> forall fuel, pg_reports_stores (pg_deep_oracle fuel body reason lc now fam leaf).
+Proof. exact deep_reports_stores. Qed.
+Print Assumptions C02_deep_reports_stores.
+
+Theorem C02_deep_stores_apart : forall body reason lc now fam leaf tops,
+  pg_pure leaf -> pg_fam_apart fam tops -> forall fuel, pg_stores_apart (pg_deep_oracle fuel body reason lc now fam leaf) tops.
+Proof. exact deep_stores_apart. Qed.
+Print Assumptions C02_deep_stores_apart.
+
+Theorem C02_close_leaves_nothing_deep : forall body owned reason selected lc now nd fuel fam leaf,
+  pg_handler_reason reason = true -> selected <> [] -> pg_pure leaf ->
+  pg_refs_closed (fun s => pg_find s body) owned ->
+  let r := pg_pipeline body owned reason selected lc now nd (pg_deep_oracle fuel body reason lc now fam leaf) in
+  r_done r = Some true ->
+  forall s, pg_after body (r_patch r) s = None.
+Proof. exact close_leaves_nothing_deep. Qed.
+Print Assumptions C02_close_leaves_nothing_deep.
+
+(* non-vacuity: parent -> child -> leaf -> twig in one call; closing leaves an empty patch on an empty object, an
+   open cycle records all descendants in every ancestor *)
+Example C02_example_nested_three_levels :
+  let closed := pg_pipeline [] ["p"] PRCreate ["p"] LAll w_now true (pg_deep_oracle 5 [] PRCreate LAll w_now w_fam3 (w_orc [])) in
+  let open := pg_pipeline [] ["p"] PRCreate ["p"] LAll w_now true (pg_deep_oracle 5 [] PRCreate LAll w_now w_fam3 (w_orc ["p/c/b/t"])) in
+  r_invoked closed = [("p", 0)] /\
+  r_sub closed = [("p/c", 0); ("p/c/a", 0); ("p/c/b", 0); ("p/c/b/t", 0); ("p/o", 0)] /\
+  r_done closed = Some true /\ r_patch closed = [] /\
+  r_done open = Some false /\
+  option_map s_subrefs (pg_after [] (r_patch open) "p") = Some (Some ["p/c"; "p/c/a"; "p/c/b"; "p/c/b/t"; "p/o"]) /\
+  option_map s_subrefs (pg_after [] (r_patch open) "p/c") = Some (Some ["p/c/a"; "p/c/b"; "p/c/b/t"]) /\
+  option_map s_success (pg_after [] (r_patch open) "p/c/a") = Some (Some true) /\
+  option_map s_success (pg_after [] (r_patch open) "p/c/b") = Some (Some false).
+Proof. exact ex_nested_three_levels. Qed.
+Print Assumptions C02_example_nested_three_levels.
+
+Example C02_example_descendant : pg_desc [] PRCreate LAll w_now w_fam3 (w_orc []) 5 "p" 0 "p/c/b/t".
+Proof. exact ex_nested_descendant. Qed.
+Print Assumptions C02_example_descendant.
